@@ -721,6 +721,9 @@ def main(run):
     res += run.explore('near', nc, run_case, budget_s=120, chunksize=1)
     res += run.explore('mixed', mc, run_case, budget_s=120)
     rr = run.explore('reactor', rc, run_case, budget_s=300, chunksize=1)
+    # the summary table of dassh.out through which a user reads this property (vf/props/reports.py)
+    from . import reports
+    run.explore('report-interasm', reports.cases_interasm(run.tier), reports.run_interasm, budget_s=300)
     res += rr
     for k in ('rowsum_err', 'conservation_err', 'reference_err', 'heat_err'):
         vals = [x['info'][k] for x in res if x.get('info') and not x['violations']]
@@ -748,6 +751,9 @@ def main(run):
 
 
 def replay(body):
+    if str((body.get('scenario') or {}).get('probe', '')).startswith('report-'):
+        from . import reports
+        return reports.replay(body)
     r = guarded(run_case, body['scenario'], 600)
     for v in r['violations']:
         print('VIOLATION property=C10 replay=(inline) kind=%s %s observed=%s expected=%s'
